@@ -22,7 +22,7 @@ LEVEL = "exploration"
 RULE = (
     "1-3 generator bodies from a small DSL (log a message, `x = yield v`, an action spanning the nested body and its "
     "yields, try/except around yields that catches thrown exceptions and carries on, `return v`, `yield from` a nested "
-    "decorated generator), each wrapped with eliot_friendly_generator_function; a generated driver script of up to 14 "
+    "decorated generator, starting a nested decorated generator and handing it to the driver), each wrapped with eliot_friendly_generator_function; each created under a generated driver context that may differ from the one it is first resumed in; a generated driver script of up to 14 "
     "steps, each choosing a generator, an operation (next, send(v), throw(E), close()) and the driver's own surrounding "
     "context (none, action A, action B, A>B) and how the step is executed (directly, inside a copy of the driver's "
     "contextvars.Context, or on another thread inside such a copy). Oracles: (1) inside every body at every step current_action() IS the top "
@@ -37,7 +37,6 @@ RULE = (
 )
 ASSUMPTIONS = [
     "eliot.twisted.inline_callbacks is inlineCallbacks(eliot_friendly_generator_function(f)); Twisted is not installed, so only the wrapper it delegates to is exercised",
-    "creation and first resumption of a generator happen in the same driver context",
 ]
 
 
@@ -56,6 +55,7 @@ class Env(object):
         self.errors = []
         self.ids = {}
         self.roots = []
+        self.spawned = []
 
     def next_n(self, who):
         k = self.ids.get(who, 0) + 1
@@ -122,6 +122,22 @@ def make_genfn(env, who, body, base_holder):
                     env.expect(who, top, "in the except block")
             elif op == "return":
                 return ("RET", node[1] % len(VALS))
+            elif op == "spawn":
+                # start a nested decorated generator here (first resumption inside this body) and hand it to the
+                # driver, who resumes it later on its own; only outside this generator's own actions, so that the
+                # nested generator never logs into an action that has already ended
+                if stack:
+                    continue
+                sub_base = [top[0], top[1]]
+                sub_fn = make_genfn(env, who + ".sp", node[1], sub_base)
+                sub = sub_fn()
+                try:
+                    out = next(sub)
+                    env.trace.append((who, "spawned-yielded", VALS.index(out) if any(out is v for v in VALS) else "?"))
+                    env.spawned.append([sub_fn, sub, sub_base, "validated"])
+                except StopIteration:
+                    env.trace.append((who, "spawned-finished"))
+                env.expect(who, top, "after starting a nested generator")
             elif op == "yieldfrom":
                 sub_base = [top[0], top[1]]
                 sub = make_genfn(env, who + ".sub", node[1], sub_base)
@@ -177,9 +193,29 @@ def drive(case, decorated):
             holder = ["unset", None]
             fn = make_genfn(env, "g%d" % i, body, holder)
             gens.append([fn, None, holder])
+        for gi_, where in enumerate(case.get("create_ctx") or []):
+            # the generator object is created here, possibly under another action than the one it is started in
+            if where is None or gi_ >= len(gens):
+                continue
+            pre = []
+            if decorated:
+                if where in (1, 3):
+                    pre.append(A.context())
+                if where in (2, 3):
+                    pre.append(B.context())
+            for cm in pre:
+                cm.__enter__()
+            try:
+                gens[gi_][1] = gens[gi_][0]()
+            finally:
+                for cm in reversed(pre):
+                    cm.__exit__(None, None, None)
         for step in case["script"]:
+            if env.spawned:
+                gens.extend(env.spawned)
+                del env.spawned[:]
             gi, op, arg, ctx = step[:4]
-            gi %= len(gens)
+            gi %= max(1, len(gens))
             entry = gens[gi]
             cms = []
             if decorated:
@@ -257,6 +293,8 @@ def drive(case, decorated):
                 for cm in reversed(cms):
                     cm.__exit__(None, None, None)
         # finish whatever is still suspended, from the plain driver context
+        gens.extend(env.spawned)
+        del env.spawned[:]
         for entry in gens:
             if entry[1] is not None:
                 try:
@@ -311,14 +349,16 @@ def _first_diff(a, b):
 
 
 def holds_action(body):
-    return any(n[0] == "action" or (n[0] in ("try", "yieldfrom") and holds_action(n[1])) for n in body)
+    return any(n[0] == "action" or (n[0] in ("try", "yieldfrom", "spawn") and holds_action(n[1])) for n in body)
 
 
 def classify(case, info):
     labels = ["gens=%d" % len(case["gens"]), "driver-contexts=%d" % info["ctxs"]] + ["op:" + o for o in info["ops"]]
     labels += ["resumed-via:" + {0: "same-Context-object", 1: "copied-Context", 2: "other-thread"}[v] for v in info.get("vias", [])]
     text = canon(case["gens"])
-    for k in ("yieldfrom", "try", "return", "action"):
+    if any(c is not None for c in case.get("create_ctx") or []):
+        labels.append("created-in-one-context-started-in-another")
+    for k in ("yieldfrom", "try", "return", "action", "spawn"):
         if '"%s"' % k in text:
             labels.append("body:" + k)
     holding = sum(1 for g in case["gens"] if holds_action(g))
@@ -344,6 +384,7 @@ def bodies(depth=3):
             below.map(lambda b: ["action", b]),
             below.map(lambda b: ["try", b]),
             below.map(lambda b: ["yieldfrom", b]),
+            below.map(lambda b: ["spawn", b]),
         )
         tail = st.one_of(st.none(), st.none(), st.integers(0, 7).map(lambda v: ["return", v]))
         return st.tuples(st.lists(node, min_size=1, max_size=4), tail).map(lambda p: p[0] + ([p[1]] if p[1] else []))
@@ -361,7 +402,8 @@ def strategy():
     ).map(list)
     return st.integers(1, 3).flatmap(
         lambda n: st.builds(
-            lambda script, gens: {"script": script, "gens": gens},
+            lambda created, script, gens: {"create_ctx": created, "script": script, "gens": gens},
+            st.lists(st.sampled_from([None, None, 0, 1, 2, 3]), min_size=n, max_size=n),
             st.lists(step, min_size=1, max_size=14),
             st.lists(bodies(), min_size=n, max_size=n),
         )
